@@ -284,7 +284,7 @@ func ruleDeadzonePrecedence(c *Ctx, dv *dev, paths []*Path) {
 		if amap != nil && dmap != nil {
 			var aKeys, dKeys []ssa.Value
 			var aBlk, dBlk *ssa.BasicBlock
-			for _, b := range pf.fn.Blocks {
+			for _, b := range pf.regionBlocks() { // (the conversion may live in a stage function of the parser)
 				for _, in := range b.Instrs {
 					if mu, ok := in.(*ssa.MapUpdate); ok {
 						if mu.Map == amap {
@@ -297,7 +297,7 @@ func ruleDeadzonePrecedence(c *Ctx, dv *dev, paths []*Path) {
 				}
 			}
 			if len(aKeys) == 1 && len(dKeys) == 1 && aBlk == dBlk {
-				vw := pf.view(pf.fn)
+				vw := pf.view(aBlk.Parent())
 				okCo = vw.Term(aKeys[0]).String() == vw.Term(dKeys[0]).String()
 			}
 		}
